@@ -142,7 +142,16 @@ where
         record: Arc<Record<E>>,
         garbages: &mut Vec<(Event, Arc<Record<E>>)>,
         taken: &mut Option<Taken<E, S, I>>,
+        superseded: Option<&AtomicBool>,
     ) {
+        // The result of a fetch whose inflight was closed meanwhile (by an explicit insert of the key) must not be
+        // published. The flag is raised inside this critical section, so checking it here cannot miss a concurrent
+        // insert, unlike the check the fetch task makes before it polls the fetch future.
+        if superseded.is_some_and(|closed| closed.load(Ordering::Relaxed)) {
+            record.inc_refs(1);
+            return;
+        }
+
         // The taken inflight is handed out and dropped by the caller, out of the lock critical section.
         *taken = self.inflights.lock().take(record.hash(), record.key(), None);
         let notifiers = taken.as_ref().map(|taken| taken.notifiers.len()).unwrap_or_default();
@@ -554,7 +563,7 @@ where
         value: E::Value,
         properties: E::Properties,
     ) -> RawCacheEntry<E, S, I> {
-        self.insert_with_properties_inner(key, value, properties, Source::Outer)
+        self.insert_with_properties_inner(key, value, properties, Source::Outer, None)
     }
 
     fn insert_with_properties_inner(
@@ -563,6 +572,7 @@ where
         value: E::Value,
         mut properties: E::Properties,
         source: Source,
+        superseded: Option<&AtomicBool>,
     ) -> RawCacheEntry<E, S, I> {
         let hash = self.inner.hash_builder.hash_one(&key);
         let weight = (self.inner.weighter)(&key, &value);
@@ -581,17 +591,22 @@ where
             hash,
             weight,
         }));
-        self.insert_inner(record, source)
+        self.insert_inner(record, source, superseded)
     }
 
     #[doc(hidden)]
     #[cfg_attr(feature = "tracing", fastrace::trace(name = "foyer::memory::raw::insert_piece"))]
     pub fn insert_piece(&self, piece: Piece<E::Key, E::Value, E::Properties>) -> RawCacheEntry<E, S, I> {
-        self.insert_inner(piece.into_record(), Source::Memory)
+        self.insert_inner(piece.into_record(), Source::Memory, None)
     }
 
     #[cfg_attr(feature = "tracing", fastrace::trace(name = "foyer::memory::raw::insert_inner"))]
-    fn insert_inner(&self, record: Arc<Record<E>>, source: Source) -> RawCacheEntry<E, S, I> {
+    fn insert_inner(
+        &self,
+        record: Arc<Record<E>>,
+        source: Source,
+        superseded: Option<&AtomicBool>,
+    ) -> RawCacheEntry<E, S, I> {
         let mut garbages = vec![];
         let mut taken = None;
 
@@ -599,7 +614,7 @@ where
         crate::verif::sched_point("insert:lock");
         self.inner.shards[self.shard(record.hash())]
             .write()
-            .with(|mut shard| shard.emplace(record.clone(), &mut garbages, &mut taken));
+            .with(|mut shard| shard.emplace(record.clone(), &mut garbages, &mut taken, superseded));
 
         #[cfg(feature = "verif")]
         crate::verif::sched_point("insert:unlocked");
@@ -1325,7 +1340,7 @@ where
                     match optional_fetch.poll_unpin(cx) {
                         Poll::Pending => return Poll::Pending,
                         Poll::Ready(Ok(Some(target))) => {
-                            handle_try! {*this.state, handle_target(target, this.key, this.cache, Source::Disk) }
+                            handle_try! {*this.state, handle_target(target, this.key, this.cache, Source::Disk, this.close) }
                         }
                         Poll::Ready(Ok(None)) => {
                             handle_try! { *this.state, try_set_required(required_fetch_builder, this.ctx, *this.id, *this.hash, this.key.as_ref().unwrap(), &this.inflights, Ok(None)) }
@@ -1342,7 +1357,7 @@ where
                     match required_fetch.poll_unpin(cx) {
                         Poll::Pending => return Poll::Pending,
                         Poll::Ready(Ok(target)) => {
-                            handle_try! { *this.state, handle_target(target, this.key, this.cache, Source::Outer) }
+                            handle_try! { *this.state, handle_target(target, this.key, this.cache, Source::Outer, this.close) }
                         }
                         Poll::Ready(Err(e)) => {
                             handle_try! { *this.state, handle_error(e, *this.id, *this.hash, this.key.as_ref().unwrap(), this.inflights) }
@@ -1423,14 +1438,15 @@ where
         key: &mut Once<E::Key>,
         cache: &RawCache<E, S, I>,
         source: Source,
+        close: &AtomicBool,
     ) -> Try<E, S, I, C> {
         match target {
             FetchTarget::Entry { value, properties } => {
                 let key = key.take().unwrap();
-                cache.insert_with_properties_inner(key, value, properties, source);
+                cache.insert_with_properties_inner(key, value, properties, source, Some(close));
             }
             FetchTarget::Piece(piece) => {
-                cache.insert_piece(piece);
+                cache.insert_inner(piece.into_record(), Source::Memory, Some(close));
             }
         }
         Try::Ready
